@@ -501,7 +501,8 @@ class NumModel(Contract):
         e = R(e)
         x = R(x)
         t = pw(x, e)
-        if z3.is_app_of(e, z3.Z3_OP_DIV) and z3.is_rational_value(e.arg(0)) and e.arg(0).as_fraction() == 1:
+        if z3.is_app_of(e, z3.Z3_OP_DIV) and z3.is_rational_value(z3.simplify(e.arg(0))) \
+                and z3.simplify(e.arg(0)).as_fraction() == 1:
             # definition of the p-th root:  (x^(1/p))^p = x,  x^(1/p) >= 0   for x >= 0, p > 0
             p = e.arg(1)
             cx.assume(Implies(And(x >= 0, p > 0), And(pw(t, p) == x, t >= 0)))
@@ -918,11 +919,10 @@ def algebra_facts(U, s, VH):
     """ground instances of the axioms of the uninterpreted matrix algebra: associativity of the product over the
     terms that occur, and the definitional fact diag(sqrt s) . diag(sqrt s) = diag(s)"""
     D, H = diag(s), diag(vsqrt(s))
-    base = [U, D, H, VH]
     out = [mm(H, H) == D]
-    for a in base:
-        for b in base:
-            for c in base:
+    for a in (U, D, H, mm(U, H), mm(U, D)):
+        for b in (D, H):
+            for c in (D, H, VH, mm(H, VH), mm(D, VH)):
                 out.append(mm(mm(a, b), c) == mm(a, mm(b, c)))
     return out
 
@@ -948,7 +948,8 @@ class DoAbsorbBase(NumModel):
         return d
 
     def requires(self, a, case):
-        d = {f"algebra-{k}": c for k, c in enumerate(algebra_facts(a.U, a.s, a.VH))}
+        facts = algebra_facts(a.U, a.s, a.VH)
+        d = {"def-sqrt-diag": facts[0], "def-product-associative": And(*facts[1:])}
         if case.form == "invalid":
             d["code-not-in-table"] = And(*[a.absorb != absorb_code(k) for k in ABSORB_CONST if k != "full"])
         return d
